@@ -95,4 +95,22 @@ theorem assemble_contains_chunks : ∀ (slices : List (Int × Int)) (r : Int × 
 example : startStopX 10 (3/4) (27/4) false = (1, 8) := by decide +kernel
 example : boundsSlice (3/4) (27/4) = (0, 8) := by decide +kernel
 
+/-- **a needed pixel is never rejected**: if some pixel `c` of the axis contains (or is nearest to) a position `u` inside the
+bounds, the "no slice on area" test does not fire on that axis -/
+theorem needed_pixel_not_rejected (n : Nat) (lo hi u : Rat) (c : Int) (hlo : lo ≤ u) (hhi : u ≤ hi)
+    (hc : (c : Rat) - 1/2 ≤ u ∧ u ≤ (c : Rat) + 1/2) (hc0 : 0 ≤ c) (hcn : c < n) : rejectAxis n lo hi = false := by
+  have h0 : (0 : Rat) ≤ (c : Rat) := by exact_mod_cast hc0
+  have h1 : (c : Rat) ≤ (n : Rat) - 1 := by
+    have : c ≤ (n : Int) - 1 := by omega
+    have : (c : Rat) ≤ ((n : Int) : Rat) - 1 := by exact_mod_cast this
+    simpa using this
+  simp only [rejectAxis, Bool.or_eq_false_iff, decide_eq_false_iff_not, not_lt]
+  constructor <;> linarith [hc.1, hc.2]
+
+/-- the test as it stood before F25 (pixel centres, not footprints) did reject a needed pixel: a position 0.3 pixel outside
+the first centre, inside pixel 0, with bounds ending 0.1 pixel outside the first centre -/
+theorem old_reject_defect : ∃ (n : Nat) (lo hi u : Rat) (c : Int), lo ≤ u ∧ u ≤ hi ∧ ((c : Rat) - 1/2 ≤ u ∧ u ≤ (c : Rat) + 1/2) ∧
+    0 ≤ c ∧ c < n ∧ rejectAxisOld n lo hi = true :=
+  ⟨5, -2, -1/10, -3/10, 0, by decide +kernel⟩
+
 end PyresampleModel.C11
